@@ -81,7 +81,7 @@ PROPS["C05"] = {
 # ------------------------------------------------------------------ C11
 SPL0 = "distributed::splits"
 PROPS["C11"] = {
-    "files": ["verus/c11_pass2.vrs", "kani/splits.rs"],
+    "files": ["verus/c11_pass1.vrs", "verus/c11_pass2.vrs", "kani/splits.rs"],
     "level": "proof",
     "explanation": "enumerate_parquet's pass 2 (the outer loop over the row-group inventory and the equal-row cutting loop) is extracted from the real source on every run "
                    "and verified by Verus for every inventory and every target size: each row group is tiled by contiguous ranges from 0 with >= 1 row each, rows and bytes summing exactly.",
@@ -94,6 +94,8 @@ PROPS["C11"] = {
         H(SPL0, "c11_s5_canonical_key_fields", "Split::canonical_key", "key == (table, file, row_group, row_offset): equal keys <=> same row range of the same (table,file); ignores path/num_rows/bytes; ordering lexicographic"),
     ],
     "verus": [
+        V("c11_pass1", "enumerate_parquet (pass 1: body of `for (index, rg) in meta.row_groups()..`)",
+          "one row group of one footer, from an arbitrary inventory satisfying the pass-1 invariant: rows <= 0 changes nothing; otherwise exactly one entry (index, rows, max(bytes,0)) is appended and both running totals grow by it; the invariant (only non-empty row groups, totals == sums) is preserved - these are pass 2's preconditions"),
         V("c11_pass2", "enumerate_parquet (pass 2: `let mut splits` .. end of `for rg in &inventory`)",
           "for all inventories with rows>=1 and target>=1: exists marks. every row group g is tiled exactly by splits[marks[g]..marks[g+1]] "
           "(contiguous from offset 0, each >=1 row, sum rows == rg.rows, sum bytes == rg.bytes exactly, row_group index preserved); totals equal inventory totals; no overflow"),
@@ -103,7 +105,7 @@ PROPS["C11"] = {
         "digest sensitivity: 'a change at one position of the canonical stream changes the digest' follows from the verified step form by the ring argument over Z/2^64 (pen and paper); no 64-bit digest can separate ALL contents (pigeonhole)",
         "carrier for SplitSet/Split in the digest body: exactly the fields the body reads; String as a short byte carrier",
     ],
-    "not_under_contract": ["cached_metadata returns the file's real footer (C19)", "pass 1 (footer I/O and the two running sums)", "file_key (std Path machinery is beyond CBMC's budget): basenames are assumed pairwise distinct; two files with the same basename in different directories get identical canonical keys (observation D8, not checked)",
+    "not_under_contract": ["cached_metadata returns the file's real footer (C19)", "pass 1's file loop (footer I/O, canonical file ordering)", "file_key (std Path machinery is beyond CBMC's budget): basenames are assumed pairwise distinct; two files with the same basename in different directories get identical canonical keys (observation D8, not checked)",
                            "the final sort_by over canonical keys (std sort)"],
     "technique": "Verus loop invariants on the cutting loops extracted mechanically from enumerate_parquet; Kani contracts (all inputs) on target_split_bytes, digest step and canonical keys",
     "level_text": "Deductive and unbounded: Verus proves the tiling/sum postconditions of pass 2 for every inventory size, row count, byte size and target; loop-free helpers are proved by Kani for all inputs.",
